@@ -73,6 +73,13 @@ func (node *tagCycleNode) Execute(ctx *ExecutionContext, writer TemplateWriter) 
 			return err
 		}
 
+		if inner, isCycleValue := val.Interface().(*tagCycleValue); isCycleValue {
+			// Never store a cycle value inside a cycle value: it might be
+			// this very one ({% cycle a a as a %}), and printing it would
+			// never end.
+			val = inner.value
+		}
+
 		t.value = val
 
 		if !t.node.silent {
